@@ -1,6 +1,7 @@
 import MechVerif.Driver.C20
 import MechVerif.Driver.C07
 import MechVerif.Driver.C15
+import MechVerif.Driver.C01
 open MechVerif.Driver
 
 def dispatch (line : String) : String :=
@@ -9,6 +10,7 @@ def dispatch (line : String) : String :=
     match fields.head? with
     | some "include" => runC20 fields obs
     | some "range" => runC15 fields obs
+    | some "binop" | some "unop" => runC01 fields obs
     | some "crc" | some "dmg" | some "sweep" | some "rt" | some "instrs" => runC07 fields obs
     | _ => ("bad-proto", "bad-proto", "-")
   m ++ "\t" ++ v ++ "\t" ++ r
